@@ -409,7 +409,10 @@ def fit_world(args, scratch):
                     for i_, (row_, f_) in enumerate(zip(tab, uniq)):
                         if f_ in prev:
                             stats['skipped_rows_checked'] = stats.get('skipped_rows_checked', 0) + 1
-                            if not (row_[0] == float('inf') and all(v_ == 0 for v_ in row_[1:])):
+                            timed_out_ = bool(args.get('plan')) and row_[0] != row_[0]
+                            # with injected time-outs in the fitting stage a row may legitimately be nan (the fit of that
+                            # function was interrupted before the look-up); it may never carry a fitted value
+                            if not timed_out_ and not (row_[0] == float('inf') and all(v_ == 0 for v_ in row_[1:])):
                                 probs.append(('repeat-not-skipped', 'negloglike', i_, f_, row_[0]))
                                 break
             if 'fisher' in stages:
